@@ -191,6 +191,39 @@ def leanchecker(mods):
     return p.returncode == 0, p.stdout.decode(errors='replace')[-500:]
 
 
+# ------------------------------------------------------------------ shrinking
+
+def shrink_seq(seq, fails, budget=400):
+    """delta-debug a sequence (string, tuple or list): smallest subsequence on which fails(x) holds"""
+    kind = type(seq)
+    cur = list(seq)
+
+    def mk(xs):
+        return ''.join(xs) if kind is str else kind(xs)
+    n = 2
+    calls = 0
+    while len(cur) >= 2 and calls < budget:
+        chunk = max(1, len(cur) // n)
+        reduced = False
+        for i in range(0, len(cur), chunk):
+            cand = cur[:i] + cur[i + chunk:]
+            calls += 1
+            try:
+                bad = bool(cand) and fails(mk(cand))
+            except Exception:
+                bad = False
+            if bad:
+                cur = cand
+                n = max(n - 1, 2)
+                reduced = True
+                break
+        if not reduced:
+            if chunk == 1:
+                break
+            n = min(n * 2, len(cur))
+    return mk(cur)
+
+
 # ------------------------------------------------------------------ known findings
 
 def load_known():
